@@ -9,5 +9,6 @@ CONSTANTS
   Secrets <- S1
   Questions <- Q0
   AllowEnd = FALSE
+  MaxRequery = 0
 INVARIANTS EmitAll
 CHECK_DEADLOCK FALSE
